@@ -1,6 +1,6 @@
 (* C09 property theorems: statements + `exact lemma` only. *)
-From CJ Require Import Common.Base C09.Model C09.ProofsA C09.ProofsB.
-From Coq Require Import Arith PeanoNat.
+From CJ Require Import Common.Base C09.Model C09.ProofsA C09.ProofsS C09.ProofsB.
+From Coq Require Import Arith PeanoNat Permutation.
 Local Open Scope nat_scope.
 
 (* Whatever the schedule of any number of workers, handlers, reloads and sweeps, and whatever ages the
@@ -31,6 +31,26 @@ Theorem C09_no_panic_in_sweep : forall split share ths acts,
   panicked (run split share (init ths) acts) = false.
 Proof. exact no_panic_lemma. Qed.
 Print Assumptions C09_no_panic_in_sweep.
+
+(* Serializability: for any number of workers and every schedule, once all ingests have finished the
+   table (validity, covert, count of every tracked registration) and the multiset of announcements
+   are those of the same ingests run one after the other in some order. *)
+Theorem C09_serializable : forall share ms acts,
+  let c := run false share (init (workers ms)) acts in
+  terminal (length ms) c ->
+  exists ms', Permutation ms ms' /\
+              (forall k, view c k = view (serial share ms') k) /\
+              (forall a, count_ann a (announcements c (trace c)) =
+                         count_ann a (announcements (serial share ms') (trace (serial share ms')))).
+Proof. exact serializable_lemma. Qed.
+Print Assumptions C09_serializable.
+
+(* ... and the serial run is the obvious specification: the first admissible message of a key owns
+   it, it is valid iff it is admitted, later ones are counted. *)
+Theorem C09_serial_is_spec : forall share ms k,
+  view (serial share ms) k = spec_view (spec_nf (rev (filter passes ms))) k.
+Proof. exact serial_spec_lemma. Qed.
+Print Assumptions C09_serial_is_spec.
 
 (* Overload: excess registrations are dropped and counted; the receiver never waits for a worker. *)
 Theorem C09_distributor_never_blocks : forall nw cap work p,
